@@ -232,6 +232,180 @@ def gen_namespace(rng):
     return ts, js, ("N " + "|".join(model)) if pure else None, obs
 
 
+# ---------------------------------------------------------------- nested / merged namespaces with scope resolution
+class NsSym:
+    def __init__(self, name):
+        self.name = name
+        self.exports = {}            # exported variable name -> seq of its initialisation (all merged blocks)
+        self.exported_children = {}  # name -> (NsSym, seq of first declaration) merged across all blocks of this symbol
+        self.local_kid_names = set()
+
+
+class NsBlock:
+    def __init__(self, sym, parent):
+        self.sym, self.parent = sym, parent
+        self.locals = {}             # local variable name -> seq
+        self.local_children = {}     # non-exported nested namespaces of THIS block: name -> (NsSym, first seq)
+        self.declared_here = {}      # nested namespace names declared in this block -> first seq
+        self.items = []              # ('ex'|'lo', name, seq) | ('ns', name, exported, NsBlock, seq)
+
+
+NS_VARS = ["x", "y", "z", "w"]
+NS_KIDS = ["B", "C", "D"]
+NS_SHOW = "const show = o => typeof o === 'object' && o ? '{' + Object.keys(o).sort().map(k => k + ':' + show(o[k])).join(',') + '}' : String(o);\n"
+
+
+def gen_nested_namespace(rng):
+    """merged blocks of `namespace A` with exported and local variables and nested (exported or block-local) namespaces.
+    Pass 1 fixes the declarations; pass 2 writes the initialisers: every bare or qualified reference is bound the way the
+    TypeScript checker binds it (block locals, then the exports of the merged symbol, then outwards) and spelled accordingly
+    in the emit; only bindings already initialised at that point are referenced."""
+    seq = [0]
+    root = NsSym("A")
+
+    def path_names(block):
+        out = []
+        while block is not None:
+            out.append(block.sym.name)
+            block = block.parent
+        return out
+
+    def build(block, depth):
+        for _ in range(rng.randint(1, 5)):
+            k = rng.random()
+            if k < 0.42:
+                n = rng.choice(NS_VARS)
+                if n in block.sym.exports or n in block.locals:
+                    continue
+                seq[0] += 1
+                block.sym.exports[n] = seq[0]
+                block.items.append(("ex", n, seq[0]))
+            elif k < 0.62:
+                n = rng.choice(NS_VARS)
+                if n in block.locals or n in block.sym.exports:
+                    continue
+                seq[0] += 1
+                block.locals[n] = seq[0]
+                block.items.append(("lo", n, seq[0]))
+            elif depth < 2:
+                free = [x for x in NS_KIDS if x not in path_names(block)]
+                again = [x for x in free if x in block.sym.local_kid_names or x in block.sym.exported_children]
+                kid = rng.choice(again) if again and rng.random() < 0.6 else rng.choice(free)
+                if kid in block.sym.exported_children:
+                    exported = True
+                elif kid in block.sym.local_kid_names:
+                    exported = False                 # never mix exported and local declarations of one name in a namespace
+                else:
+                    exported = rng.random() < 0.5
+                seq[0] += 1
+                if exported:
+                    ksym = block.sym.exported_children.setdefault(kid, (NsSym(kid), seq[0]))[0]
+                else:
+                    ksym = block.local_children.setdefault(kid, (NsSym(kid), seq[0]))[0]
+                    block.sym.local_kid_names.add(kid)
+                block.declared_here.setdefault(kid, seq[0])
+                inner = NsBlock(ksym, block)
+                block.items.append(("ns", kid, exported, inner, seq[0]))
+                build(inner, depth + 1)
+        if not block.items:
+            seq[0] += 1
+            n = "v%d" % seq[0]
+            block.sym.exports[n] = seq[0]
+            block.items.append(("ex", n, seq[0]))
+
+    def resolve_var(name, block):
+        b = block
+        while b is not None:
+            if name in b.locals:
+                return name, b.locals[name]
+            if name in b.sym.exports:
+                return b.sym.name + "." + name, b.sym.exports[name]
+            b = b.parent
+        return name, 0                       # module-level const
+
+    def resolve_ns(kid, block, now):
+        """-> (js spelling of the namespace object, symbol) or None when unbound / not yet created at `now`"""
+        b = block
+        while b is not None:
+            if kid in b.local_children:
+                ksym, first = b.local_children[kid]
+                return (kid, ksym) if first < now else None
+            if kid in b.sym.exported_children:
+                ksym, first = b.sym.exported_children[kid]
+                if kid in b.declared_here:                      # this block has its own `let K`
+                    return (kid, ksym) if b.declared_here[kid] < now else None
+                return (b.sym.name + "." + kid, ksym) if first < now else None
+            b = b.parent
+        return None
+
+    def expr(block, now, own):
+        cands = []
+        for n in NS_VARS:
+            js, at = resolve_var(n, block)
+            if at < now:
+                cands.append((n, js))
+        for kid in NS_KIDS:
+            r = resolve_ns(kid, block, now)
+            if r:
+                for v, at in r[1].exports.items():
+                    if at < now:
+                        cands.append((kid + "." + v, r[0] + "." + v))
+        k = rng.random()
+        if not cands or k < 0.25:
+            lit = "'%s%d'" % (block.sym.name.lower(), now)
+            return lit, lit
+        # names that ANOTHER namespace object of the same name exports, but this one does not: they must bind outwards
+        foreign = [c for c in cands if c[0] in by_name.get(block.sym.name, ()) and c[0] not in block.sym.exports and c[0] not in block.locals]
+        if foreign and rng.random() < 0.5:
+            return rng.choice(foreign)
+        if k < 0.75:
+            return rng.choice(cands)
+        a, b2 = rng.choice(cands), rng.choice(cands)
+        return "(%s + '+' + %s)" % (a[0], b2[0]), "(%s + '+' + %s)" % (a[1], b2[1])
+
+    def text(block):
+        ts, js, seen = [], [], set()
+        for it in block.items:
+            if it[0] == "ex":
+                t, j = expr(block, it[2], it[1])
+                ts.append("export const %s = %s;" % (it[1], t))
+                js.append("%s.%s = %s;" % (block.sym.name, it[1], j))
+            elif it[0] == "lo":
+                t, j = expr(block, it[2], it[1])
+                ts.append("const %s = %s;" % (it[1], t))
+                js.append("const %s = %s;" % (it[1], j))
+            else:
+                _, kid, exported, inner, _ = it
+                t, j = text(inner)
+                ts.append("%snamespace %s { %s }" % ("export " if exported else "", kid, " ".join(t)))
+                arg = "%s = %s.%s || (%s.%s = {})" % (kid, block.sym.name, kid, block.sym.name, kid) if exported else "%s || (%s = {})" % (kid, kid)
+                js.append("%s(function (%s) { %s })(%s);" % ("let %s; " % kid if kid not in seen else "", kid, " ".join(j), arg))
+                seen.add(kid)
+        return ts, js
+
+    blocks = []
+    for _ in range(rng.choice([1, 2, 2, 3, 3])):
+        blk = NsBlock(root, None)
+        build(blk, 0)
+        blocks.append(blk)
+    by_name = {}
+
+    def collect(block):
+        by_name.setdefault(block.sym.name, set()).update(block.sym.exports)
+        for it in block.items:
+            if it[0] == "ns":
+                collect(it[3])
+    for blk in blocks:
+        collect(blk)
+    ts_all = ["const %s = 'g.%s';" % (n, n) for n in NS_VARS]
+    js_all = list(ts_all)
+    for i, blk in enumerate(blocks):
+        t, j = text(blk)
+        ts_all.append("namespace A { %s }" % " ".join(t))
+        js_all.append("%s(function (A) { %s })(A || (A = {}));" % ("var A; " if i == 0 else "", " ".join(j)))
+    return ts_all, js_all, None, "show(A)"
+
+
 # ---------------------------------------------------------------- classes
 def gen_class(rng):
     derived = rng.random() < 0.5
@@ -313,9 +487,9 @@ def embed(rng, decls, obs, js):
 def run(ctx):
     rng = ctx.rng
     cases = []
-    n = 160 if ctx.tier == "quick" else 2500
+    n = 300 if ctx.tier == "quick" else 4200
     for i in range(n):
-        kind = ["enum", "ns", "class", "abstract"][i % 4]
+        kind = ["enum", "ns", "class", "abstract", "nsnest", "nsnest"][i % 6]
         style_seed = rng.randint(0, 10 ** 9)
         if kind == "enum":
             ts, js, model, used = gen_enum(rng)
@@ -323,6 +497,9 @@ def run(ctx):
             obs = ENUM_OBS % look
         elif kind == "ns":
             ts, js, model, obs = gen_namespace(rng)
+        elif kind == "nsnest":
+            ts, js, model, obs = gen_nested_namespace(rng)
+            ts, js = [NS_SHOW] + ts, [NS_SHOW] + js
         elif kind == "class":
             t, j, obs = gen_class(rng)
             ts, js, model = [t], [j], None
